@@ -41,6 +41,7 @@ type h1Watcher struct {
 	owner  int
 	nodes  map[string]*h1ShadowNode
 	events int
+	expired []string
 }
 
 func (w *h1Watcher) get(id, what string) *h1ShadowNode {
@@ -61,6 +62,9 @@ func (w *h1Watcher) OnJoin(id string) {
 		w.nodes[id] = &h1ShadowNode{kv: map[string]string{}}
 	} else {
 		w.w.run.Probe("c14.duplicate_join")
+	}
+	if w.w.free != nil {
+		w.w.free.noteJoin(w.owner, id)
 	}
 }
 func (w *h1Watcher) OnLeave(id string) {
@@ -101,6 +105,19 @@ func (w *h1Watcher) OnExpired(id string) {
 		w.w.run.Fail("C14.flags", "expired-unknown", "n%d was notified OnExpired for unknown %s", w.owner, id)
 	}
 	delete(w.nodes, id)
+	w.expired = append(w.expired, id)
+	if w.w.free != nil {
+		w.w.free.noteExpired(w.owner, id)
+	}
+}
+
+// takeExpired returns the ids announced as expired since the last call.
+func (w *h1Watcher) takeExpired() []string {
+	w.mu.Lock()
+	defer w.mu.Unlock()
+	e := w.expired
+	w.expired = nil
+	return e
 }
 
 // ------------------------------------------------------------ world
@@ -164,6 +181,7 @@ type h1World struct {
 	lastDigestTo map[string]digest // dst addr -> last digest delivered to it (C13.prefix)
 	lastDigestFrom map[string]string
 	emitChecks bool
+	free       *h1Free // set in free-running mode
 	oversize   bool // the case deliberately contains entries larger than a packet (F1 family)
 }
 
@@ -758,8 +776,23 @@ func (w *h1World) checkAll(localOpOn *h1Node) {
 		// C02.own: received messages never change the node's own published state
 		own := o.g.LocalNode()
 		if own.Version != o.ver || !entriesEqual(o.cur, own) {
-			run.Fail("C02.own", "own-state-changed", "n%d's own state changed without a local write (version %d -> %d)", o.idx, o.ver, own.Version)
+			if w.free != nil && w.isOwnCompaction(o, own) {
+				// piko's own compaction ticker ran: a local write
+				run.Probe("c17.ticker_compaction")
+				for k, m := range o.model {
+					if m.deleted {
+						delete(o.model, k)
+					}
+				}
+			} else {
+				run.Fail("C02.own", "own-state-changed", "n%d's own state changed without a local write (version %d -> %d)", o.idx, o.ver, own.Version)
+			}
 			w.absorbLocal(o)
+		}
+		for _, id := range o.w.takeExpired() {
+			if v := o.views[id]; v != nil {
+				v.known = false // forgotten: monotonicity and stickiness tracking restart
+			}
 		}
 		metas := o.g.state.Nodes()
 		sort.Slice(metas, func(i, j int) bool { return metas[i].ID < metas[j].ID })
@@ -915,6 +948,41 @@ func (w *h1World) checkFold(o *h1Node, metas []NodeMetadata) {
 			run.Fail("C14.flags", "missing-expired", "n%d: %s is gone from the view but OnExpired was never announced", o.idx, id)
 		}
 	}
+}
+
+// isOwnCompaction: the only way a node's own state may change without the
+// harness writing is piko's compaction ticker: same live entries, no
+// tombstones, a newer marker.
+func (w *h1World) isOwnCompaction(o *h1Node, own *NodeState) bool {
+	marker := false
+	live := map[string]string{}
+	for _, e := range own.Entries {
+		if e.Deleted {
+			return false
+		}
+		if e.Internal && e.Key == compactKey {
+			marker = e.Version > o.ver
+			continue
+		}
+		if e.Version <= o.ver {
+			return false
+		}
+		live[e.Key] = e.Value
+	}
+	if !marker {
+		return false
+	}
+	n := 0
+	for k, e := range o.cur {
+		if e.Deleted || (e.Internal && e.Key == compactKey) {
+			continue
+		}
+		n++
+		if v, ok := live[k]; !ok || v != e.Value {
+			return false
+		}
+	}
+	return n == len(live)
 }
 
 // ------------------------------------------------------------ helpers
